@@ -1,63 +1,100 @@
 (* The screw code translated from the Go AST of the current sdf/screw.go and sdf/utils.go
    (Generated/ThreadExpr.v, rewritten by harness/threadgen on every run) is the hand-written model
    of Sdf/Screw.v that the theorems of C18 (Sdf/ScrewR.v, Sdf/IsoProfile.v, Sdf/IsoClosed.v) are
-   about: for ALL arguments and for ANY number system (reals, rationals, binary64).
+   about: equal for ALL arguments, at the real-number instance the theorems are stated at.
 
-   The proofs are by conversion (after case analysis on the guards of the constructor), so a
-   rewrite of the Go text that only introduces or removes local variables, moves a body into an
-   unexported helper, switches between field assignments and keyed literals, or names a constant
-   leaves them valid; a change of an operation, an operand, a comparison or a constant does not. *)
-From Coq Require Import ZArith List Bool.
+   Every proof first tries conversion (which succeeds on the unchanged tree, and then the equality
+   holds in any number system - the statements are kept at the reals only because of the second
+   method): a rewrite of the Go text that only introduces or removes local variables, moves a body
+   into an unexported helper, switches between field assignments and keyed literals, or names a
+   constant leaves the two sides convertible.  Otherwise the two sides are compared as expressions
+   over the reals, congruence by congruence, with ring / field / lra at the leaves: commuted or
+   re-associated sums and products, x*0.5 for x/2, -(a*b) for (-a)*b.  A changed operation, operand,
+   comparison or constant makes both methods fail. *)
+From Coq Require Import Reals ZArith List Bool Lra.
 From Sdfx Require Import Num.Ops.
+From Sdfx Require Import Num.RInst.
 From Sdfx Require Import Geo.Vec.
 From Sdfx Require Import Geo.Box.
 From Sdfx Require Import Sdf.Screw.
 From Sdfx Require Import Generated.ThreadExpr.
-Import OpsNotations ListNotations.
-Local Open Scope ops_scope.
+Import ListNotations.
+Local Open Scope R_scope.
 
-Ltac transl :=
-  intros;
+(* equality of two real expressions / vectors / lists / options built the same way up to arithmetic *)
+Ltac rleaf :=
   first [ reflexivity
-        | repeat (match goal with |- context [if ?c then _ else _] => destruct c end); reflexivity ].
+        | match goal with |- @eq R _ _ => first [ lra | ring | (field; lra) ] end ].
+Ltac rsame :=
+  first
+    [ rleaf
+    | match goal with
+      | |- (if ?a then _ else _) = (if ?b then _ else _) =>
+          tryif constr_eq a b then idtac
+          else (let H := fresh "Hc" in assert (H : a = b) by rsame; rewrite H; clear H);
+          destruct b; rsame
+      | |- ?f _ = ?g _ => progress f_equal; rsame
+      end ].
+Ltac rnorm :=
+  cbv zeta;
+  cbn [T o0 o1 oadd osub omul odiv oneg oabs osqrt oltb oleb oeqb omin omax ofZ ofloor oceil
+       osin ocos otan oatan oatan2 oacos opi ROps];
+  unfold cst, half, two, sq;
+  cbn [T o0 o1 oadd osub omul odiv oneg ofZ ROps].
+Ltac transl_with unf := intros; first [ reflexivity | (unf; rnorm; rsame) ].
 
-Section ScrewEq.
-  Context {O : Ops}.
+(* sdf/utils.go *)
+Lemma transl_SawTooth : forall x period : R, @gen_SawTooth ROps x period = @sawtooth ROps x period.
+Proof. transl_with ltac:(unfold gen_SawTooth, sawtooth). Qed.
 
-  (* sdf/utils.go *)
-  Lemma transl_SawTooth : forall x period : T O, gen_SawTooth x period = sawtooth x period.
-  Proof. transl. Qed.
+Lemma transl_DtoR : forall degrees : R, @gen_DtoR ROps degrees = @dtor ROps degrees.
+Proof. transl_with ltac:(unfold gen_DtoR, dtor). Qed.
 
-  Lemma transl_DtoR : forall degrees : T O, gen_DtoR degrees = dtor degrees.
-  Proof. transl. Qed.
+Ltac case_guards :=
+  repeat match goal with
+         | |- context [if ?c then None else _] => destruct c; [reflexivity|]
+         | |- context [if ?c then _ else _] => destruct c
+         end.
 
-  (* Screw3D: for a non-nil thread profile the constructor checks exactly the guards of `screw3d` and
-     stores pitch, lead = -pitch * starts, HALF the length and the taper ... *)
-  Lemma transl_Screw3D : forall (bb : Box2 O) (length taper pitch : T O) (starts : Z),
-    option_map (fun g => mkScrew (ScrewSDF3_pitch g) (ScrewSDF3_lead g) (ScrewSDF3_length g) (ScrewSDF3_taper g))
-               (gen_Screw3D false bb length taper pitch starts)
-    = screw3d length taper pitch starts.
-  Proof. intros. unfold gen_Screw3D, screw3d. transl. Qed.
+(* Screw3D: for a non-nil thread profile the constructor checks exactly the guards of `screw3d` and
+   stores pitch, lead = -pitch * starts, HALF the length and the taper ... *)
+Lemma transl_Screw3D : forall (bb : Box2 ROps) (length taper pitch : R) (starts : Z),
+  option_map (fun g => mkScrew (ScrewSDF3_pitch g) (ScrewSDF3_lead g) (ScrewSDF3_length g) (ScrewSDF3_taper g))
+             (@gen_Screw3D ROps false bb length taper pitch starts)
+  = @screw3d ROps length taper pitch starts.
+Proof.
+  intros. unfold gen_Screw3D, screw3d.
+  first [ case_guards; reflexivity
+        | unfold gen_DtoR, gen_SawTooth; rnorm; case_guards; cbn; rnorm; rsame ].
+Qed.
 
-  (* ... and the box [-r, r]^2 x [-length/2, length/2], r = top of the profile's box + length/2 * tan taper;
-     a nil profile is rejected *)
-  Lemma transl_Screw3D_bb : forall (bb : Box2 O) (length taper pitch : T O) (starts : Z),
-    option_map ScrewSDF3_bb (gen_Screw3D false bb length taper pitch starts)
-    = option_map (screw_bb (vy (b2max bb))) (screw3d length taper pitch starts).
-  Proof. intros. unfold gen_Screw3D, screw3d. transl. Qed.
+(* ... and the box [-r, r]^2 x [-length/2, length/2], r = top of the profile's box + length/2 * tan taper;
+   a nil profile is rejected *)
+Lemma transl_Screw3D_bb : forall (bb : Box2 ROps) (length taper pitch : R) (starts : Z),
+  option_map ScrewSDF3_bb (@gen_Screw3D ROps false bb length taper pitch starts)
+  = option_map (screw_bb (vy (b2max bb))) (@screw3d ROps length taper pitch starts).
+Proof.
+  intros. unfold gen_Screw3D, screw3d.
+  first [ case_guards; reflexivity
+        | unfold gen_DtoR, gen_SawTooth, screw_bb; rnorm; case_guards; cbn; rnorm; rsame ].
+Qed.
 
-  Lemma transl_Screw3D_nil : forall (bb : Box2 O) (length taper pitch : T O) (starts : Z),
-    gen_Screw3D true bb length taper pitch starts = None.
-  Proof. transl. Qed.
+Lemma transl_Screw3D_nil : forall (bb : Box2 ROps) (length taper pitch : R) (starts : Z),
+  @gen_Screw3D ROps true bb length taper pitch starts = None.
+Proof. reflexivity. Qed.
 
-  (* ScrewSDF3.Evaluate *)
-  Lemma transl_ScrewSDF3_Evaluate : forall (thread : V2 O -> T O) (s : ScrewSDF3 O) (p : V3 O),
-    gen_ScrewSDF3_Evaluate thread (s_pitch s) (s_lead s) (s_length s) (s_taper s) p = screw_eval thread s p.
-  Proof. transl. Qed.
+(* ScrewSDF3.Evaluate *)
+Lemma transl_ScrewSDF3_Evaluate : forall (thread : V2 ROps -> R) (s : ScrewSDF3 ROps) (p : V3 ROps),
+  @gen_ScrewSDF3_Evaluate ROps thread (s_pitch s) (s_lead s) (s_length s) (s_taper s) p = screw_eval thread s p.
+Proof.
+  transl_with ltac:(unfold gen_ScrewSDF3_Evaluate, screw_eval, screw_map, gen_SawTooth, sawtooth, tau).
+Qed.
 
-  (* ISOThread: the vertex list handed to Polygon2D, before the smoothing of the marked corners *)
-  Lemma transl_ISOThread : forall (radius pitch : T O) (external : bool),
-    gen_ISOThread radius pitch external = iso_thread_pv radius pitch external.
-  Proof. intros. destruct external; reflexivity. Qed.
-
-End ScrewEq.
+(* ISOThread: the vertex list handed to Polygon2D, before the smoothing of the marked corners *)
+Lemma transl_ISOThread : forall (radius pitch : R) (external : bool),
+  @gen_ISOThread ROps radius pitch external = @iso_thread_pv ROps radius pitch external.
+Proof.
+  intros. destruct external;
+    first [ reflexivity
+          | (unfold gen_ISOThread, iso_thread_pv, gen_DtoR, dtor, pvs, pvn; rnorm; rsame) ].
+Qed.
